@@ -9,7 +9,7 @@ use serde_json::Value;
 
 pub const META: PropMeta = PropMeta {
     level: "exploration",
-    rule: "same history generator (incl. short-write sinks, refused add_track calls, occasional samples above 64 KiB) and small-scope enumeration as C01 (own seeds); the muxer's bytes are decoded by the harness' own box walker and sample-table decoders (no library code): exact tiling at every level, ftyp first, one moov, one mdat, per-track table totals against the model (N, sum of sizes, sum of durations), stsc expansion over the chunk count, stss strictly increasing in range, chunks inside the mdat payload and pairwise disjoint, mdhd/tkhd/mvhd durations (one-tick tolerance in exact integer arithmetic), 64-bit forms exactly when required. Non-trivial and distinct as in C01.",
+    rule: "same history generator (incl. short-write sinks, refused add_track calls, occasional samples above 64 KiB) and small-scope enumeration as C01 (own seeds); the muxer's bytes are decoded by the harness' own box walker and sample-table decoders (no library code): exact tiling at every level, ftyp first, one moov, one mdat, per-track table totals against the model (N, sum of sizes, sum of durations), stsc expansion over the chunk count, stss strictly increasing in range, chunks inside the mdat payload and pairwise disjoint, mdhd/tkhd/mvhd durations (one-tick tolerance in exact integer arithmetic), 64-bit forms exactly when required. One output larger than 4 GiB (sparse stream, as in C13) goes through the same validator. Non-trivial and distinct as in C01.",
     assumptions: &["the reference parser implements ISO/IEC 14496-12 box syntax for the boxes the muxer emits", "N, sizes and durations come from the model of accepted calls, never from the file"],
 };
 
@@ -195,9 +195,22 @@ pub fn oracle(ctx: &mut Ctx, case: &MuxCase) -> Check {
 
 pub fn run(ctx: &mut Ctx) {
     super::c01::run_histories(ctx, oracle);
+    // one output larger than 4 GiB (the histories above stay in memory): muxed into the sparse
+    // stream of C13 and judged by the same structural validator (validate_parts)
+    ctx.stage("beyond-4GiB");
+    if ctx.enter(0) {
+        let c = super::c13::family_b(4, (1u64 << 32) + 9, 1);
+        ctx.pre_case(&c);
+        let res = super::c13::oracle(ctx, &c);
+        ctx.judge(&c, res);
+    }
 }
 
-pub fn replay(ctx: &mut Ctx, _stage: &str, case: &Value) -> Check {
+pub fn replay(ctx: &mut Ctx, stage: &str, case: &Value) -> Check {
+    if stage == "beyond-4GiB" {
+        let c: super::c13::Case = serde_json::from_value(case.clone()).map_err(|e| Failure::new("replay:bad-case", e.to_string()))?;
+        return super::c13::oracle(ctx, &c);
+    }
     let c: MuxCase = serde_json::from_value(case.clone()).map_err(|e| Failure::new("replay:bad-case", e.to_string()))?;
     oracle(ctx, &c)
 }
